@@ -108,6 +108,47 @@ def run(p):
             # the shipped constant is not modified
             now = [t.from_datum, t.to_datum, iso(t.ref_epoch)] + [getattr(t, f) for f in P7 + R7]
             p.check(now == snapshot[name], 'add:mutates', 'add', inp, now, snapshot[name], call)
+    # (c2) sets without a date (reference epoch 0): `set + date` may raise, but whatever it does the shipped constant stays as it is
+    for name, t in cat:
+        if isinstance(t.ref_epoch, datetime.date):
+            continue
+        d = rng.choice(fixed + [gens.rand_date(rng)])
+        inp = [name, d.isoformat()]
+        call = f'geodepy.constants.{name} + datetime.date({d.year}, {d.month}, {d.day})'
+        p.case('add_undated', inp)
+        try:
+            t + d
+        except Exception:  # noqa
+            pass
+        now = [t.from_datum, t.to_datum, iso(t.ref_epoch)] + [getattr(t, f) for f in P7 + R7]
+        p.check(now == snapshot[name], 'add:mutates', 'add_undated', inp, now, snapshot[name], call)
+    # (c3) chains on kept objects: move, negate, move again — judged from the numbers the intermediate objects show
+    for name, t in dated:
+        for _ in range(p.n(2, 25)):
+            d1, d2 = gens.rand_date(rng), gens.rand_date(rng)
+            inp = [name, d1.isoformat(), d2.isoformat()]
+            call = f'(-(geodepy.constants.{name} + {d1!r})) + {d2!r}'
+            ok, r = p.guarded('add:raises', 'chains', inp, lambda: (t + d1, -(t + d1)), call)
+            if not ok:
+                continue
+            m1, n1 = r
+            p.case('chains', inp)
+            okn = all(getattr(n1, f) == -getattr(m1, f) for f in P7 + R7) and n1.ref_epoch == m1.ref_epoch \
+                and (n1.from_datum, n1.to_datum) == (m1.to_datum, m1.from_datum)
+            p.check(okn, f'reverse-pair:{name}', 'chains', inp, [n1.from_datum, n1.to_datum, iso(n1.ref_epoch)] + [getattr(n1, f) for f in P7 + R7],
+                    [m1.to_datum, m1.from_datum, iso(m1.ref_epoch)] + [-getattr(m1, f) for f in P7 + R7], f'-(geodepy.constants.{name} + {d1!r})')
+            for src, lbl in ((n1, 'negated'), (m1, 'moved')):
+                ok, m2 = p.guarded('add:raises', 'chains', inp + [lbl], lambda: src + d2, call)
+                if not ok:
+                    continue
+                exp = at_epoch(src, d2)
+                dev = max(abs(Fraction(getattr(m2, f)) - e) for f, e in zip(P7, exp))
+                p.check(dev <= Fraction(50001, 10 ** 13), 'add:params', 'chains', inp + [lbl], [getattr(m2, f) for f in P7],
+                        [float(e) for e in exp], call)
+                p.check((m2.from_datum, m2.to_datum) == (src.from_datum, src.to_datum), 'add:labels-swapped', 'chains', inp + [lbl],
+                        [m2.from_datum, m2.to_datum], [src.from_datum, src.to_datum], call)
+                p.check([getattr(m2, f) for f in R7] == [getattr(src, f) for f in R7] and m2.ref_epoch == d2, 'add:rates-changed', 'chains',
+                        inp + [lbl], [iso(m2.ref_epoch)] + [getattr(m2, f) for f in R7], [d2.isoformat()] + [getattr(src, f) for f in R7], call)
     # (d) ITRF chains: A->B, B->C against the direct A->C at A->C's reference epoch
     itrf = {}
     for name, t in cat:
